@@ -422,8 +422,8 @@ func (p *parser) chrAt(index int) chr { //nolint:unused
 }
 
 func (p *parser) peek() rune {
-	if p.offset+1 < p.length {
-		return rune(p.str[p.offset+1])
+	if p.offset < p.length {
+		return rune(p.str[p.offset])
 	}
 	return -1
 }
